@@ -640,7 +640,13 @@ class Interp:
                 return
             if op == '~':
                 s = self.rv(s)
-                val[i] = ~s if isinstance(s, int) else Op()
+                r = ~s if isinstance(s, int) else Op()
+                if isinstance(r, int):
+                    from .cfg import int_type
+                    tt = int_type(e.get('t'))
+                    if tt and not tt[1]:
+                        r &= (1 << tt[0]) - 1          # ~ of an unsigned value stays in its width
+                val[i] = r
                 return
             self.broken(fn, e, 'unary operator %s' % op)
         if k == 'ArraySubscriptExpr':
